@@ -17,6 +17,7 @@ import (
 	"math/rand"
 	"os"
 	"sync"
+	"sync/atomic"
 	"time"
 
 	"github.com/google/uuid"
@@ -368,5 +369,109 @@ func bmgMain(args []string) int {
 	for _, t := range res {
 		enc.Encode(t)
 	}
+	return 0
+}
+
+// ---------------------------------------------------------------------------- shutdown with a full request queue
+//
+// RequestQueue.tla (the OutChannel pattern): AddRequest keeps the request mutex while it waits for room in the queue of
+// ten, and closing the queue needs that mutex; the manager's loop is inside a request whose peers never deliver.  The
+// shutdown interrupts the request first and closes the queue second, so that the loop drains the queue, the waiting
+// AddRequest gets its room and everything returns.
+
+type bmqOut struct {
+	Requests     int    `json:"requests"`
+	Adders       int    `json:"adders"`
+	AddsReturned int    `json:"adds_returned"`
+	RunReturned  bool   `json:"run_returned"`
+	Left         int    `json:"downloaders_left"`
+	Msg          string `json:"msg,omitempty"`
+}
+
+type bmqSilent struct{ id uuid.UUID }
+
+func (p *bmqSilent) ID() uuid.UUID { return p.id }
+func (p *bmqSilent) CancelBlockRequest(ctx context.Context, hash bitcoin.Hash32) bool {
+	return false
+}
+
+type bmqRequestor struct{}
+
+func (bmqRequestor) RequestBlock(ctx context.Context, hash bitcoin.Hash32, handler bitcoin_reader.HandleBlock,
+	onStop bitcoin_reader.OnStop) (bitcoin_reader.BlockRequestCanceller, error) {
+	return &bmqSilent{id: uuid.New()}, nil // accepts the request, never delivers the block
+}
+
+func bmqOne(requests, adders int, patience time.Duration) bmqOut {
+	res := bmqOut{Requests: requests, Adders: adders}
+	ctx := logger.ContextWithNoLogger(context.Background())
+	m := bitcoin_reader.NewBlockManager(bitcoin_reader.NewMockBlockTxManager(), bmqRequestor{}, 2, 20*time.Millisecond)
+	intr := make(chan interface{})
+	runDone := make(chan error, 1)
+	go func() { runDone <- m.Run(ctx, intr) }()
+	proc := newCountingProcessor()
+	var returned int32
+	var hashes []bitcoin.Hash32
+	for i := 0; i < requests; i++ {
+		var h bitcoin.Hash32
+		h[0], h[1] = byte(i+1), 0x51
+		hashes = append(hashes, h)
+	}
+	var wg sync.WaitGroup
+	for a := 0; a < adders; a++ {
+		wg.Add(1)
+		go func(a int) {
+			defer wg.Done()
+			for i := a; i < requests; i += adders {
+				m.AddRequest(ctx, hashes[i], 1000+i, proc)
+				atomic.AddInt32(&returned, 1)
+			}
+		}(a)
+	}
+	// one request active, ten queued, the others wait inside AddRequest
+	time.Sleep(150 * time.Millisecond)
+	close(intr)
+	select {
+	case <-runDone:
+		res.RunReturned = true
+	case <-time.After(patience):
+	}
+	addsDone := make(chan struct{})
+	go func() { wg.Wait(); close(addsDone) }()
+	select {
+	case <-addsDone:
+	case <-time.After(patience / 2):
+	}
+	res.AddsReturned = int(atomic.LoadInt32(&returned))
+	for _, h := range hashes {
+		res.Left += m.DownloaderCount(h)
+	}
+	switch {
+	case !res.RunReturned:
+		res.Msg = fmt.Sprintf("shutdown with a full request queue: Run did not return within %v after the interrupt (%d requests outstanding, peers silent)", patience, requests)
+	case res.AddsReturned != requests:
+		res.Msg = fmt.Sprintf("shutdown with a full request queue: %d of %d AddRequest calls never returned", requests-res.AddsReturned, requests)
+	case res.Left != 0:
+		res.Msg = fmt.Sprintf("shutdown with a full request queue: %d downloaders left in the list after Run returned", res.Left)
+	}
+	return res
+}
+
+func init() { subcommands["bmq"] = bmqMain }
+
+func bmqMain(args []string) int {
+	var outs []bmqOut
+	for _, adders := range []int{1, 2, 3} {
+		for _, requests := range []int{5, 11, 12, 13, 16} {
+			o := bmqOne(requests, adders, 4*time.Second)
+			if o.Msg != "" {
+				if o2 := bmqOne(requests, adders, 16*time.Second); o2.Msg == "" {
+					o = o2
+				}
+			}
+			outs = append(outs, o)
+		}
+	}
+	json.NewEncoder(os.Stdout).Encode(map[string]interface{}{"scenarios": outs})
 	return 0
 }
